@@ -830,7 +830,8 @@ class BlockDownloadStream(io.RawIOBase):
         logger.debug("Ending block transfer...")
         response = self.sdo_client.request_response(request)
         res_command, = struct.unpack_from("B", response)
-        if not res_command & END_BLOCK_TRANSFER:
+        if (res_command & 0xE0 != RESPONSE_BLOCK_DOWNLOAD or
+                res_command & 0x3 != END_BLOCK_TRANSFER):
             raise SdoCommunicationError("Block download unsuccessful")
         logger.info("Block download successful")
 
